@@ -184,15 +184,19 @@ def exec (ttl : Nat) (s : State) : Cmd → State × Res
         let s1 := waitDone s i
         (s1, match s1.phase i with | .holding => .acquired | _ => .sessionExpired)
       else (abandon { s with wall := max s.wall dl } i, .timeout)
-    | .holding => (s, .acquired)
-    | .failed => (s, .timeout)
+    | .failed => (s, .timeout)   -- its deadline passed during an earlier `sleep`
     | _ => (s, .misuse)
   | .sleep dt => (expireWaiters { s with wall := s.wall + dt }, .slept)
-  | .revoke i => if s.leaseAlive i then (loseLease s i, .revoked) else (s, .revoked)
+  | .revoke i =>
+    if s.leaseAlive i then
+      -- the lease is gone; within one keepalive interval session.Done() fires and the watcher runs.
+      -- Nothing but `observe` reads the context, so the watcher step is taken right away (this also
+      -- keeps the urgency guard of `tick` from ever blocking the time jumps of later commands)
+      let s1 := loseLease s i
+      (if s1.ctx i = .live ∧ s1.locked i = true then watch s1 i else s1, .revoked)
+    else (s, .revoked)
   | .observe i =>
-    -- one keepalive interval later the watcher has run
-    let s1 := if s.leaseAlive i = false ∧ s.ctx i = .live ∧ s.locked i = true then watch s i else s
-    (s1, match s1.ctx i with | .live => .ctxLive | .cancelled => .ctxCancelled | .none => .ctxNone)
+    (s, match s.ctx i with | .live => .ctxLive | .cancelled => .ctxCancelled | .none => .ctxNone)
 
 def replay (ttl : Nat) : State → List Cmd → List Res
   | _, [] => []
